@@ -143,3 +143,38 @@ def create (exists_ : Bool) (ds : DS) : Option DS × DS :=
   if exists_ then (none, ds) else (some { fs := ds.fs, splits := fun _ => none }, { fs := ds.fs, splits := fun _ => none })
 
 end Sedpack.Tree
+
+namespace Sedpack.Tree
+
+/-! ## `Dataset.check` (dataset_writing.py:201-273)
+
+Pass 1 (`_check_shard_list_info`) verifies every shard-list file against the digest recorded by
+its parent *before* parsing it, then recurses into the children named by the parsed document.
+Pass 2 verifies every shard file returned by `shard_info_iterator`.  A missing file raises.
+`files` maps a (directory, file name) to the content of that shard file, `Hf` is its digest. -/
+
+abbrev Files := Dir → Nat → Option Nat      -- content of the shard file `name` in directory `dir`
+
+def checkLists (H : SList → Nat) : (fuel : Nat) → FS → Kid → Bool
+  | 0, _, _ => false
+  | fuel+1, fs, k =>
+    match fs k.dir with
+    | none => false                                  -- FileNotFoundError
+    | some l => H l == k.hash && l.kids.all (fun c => checkLists H fuel fs c)
+
+def checkShards (Hf : Nat → Nat) : (fuel : Nat) → FS → Files → Dir → Bool
+  | 0, _, _, _ => false
+  | fuel+1, fs, files, d =>
+    match fs d with
+    | none => false
+    | some l =>
+      l.files.all (fun s => match files d s.file with
+        | none => false
+        | some c => Hf c == s.hash) &&
+      l.kids.all (fun c => checkShards Hf fuel fs files c.dir)
+
+/-- `Dataset.check` for the splits `ss` of the description `splits` -/
+def check (H : SList → Nat) (Hf : Nat → Nat) (fuel : Nat) (fs : FS) (files : Files) (infos : List Kid) : Bool :=
+  infos.all (fun k => checkLists H fuel fs k) && infos.all (fun k => checkShards Hf fuel fs files k.dir)
+
+end Sedpack.Tree
